@@ -199,10 +199,19 @@ func c26run(cfg c26cfg, ops []c26op) (incon bool) {
 			method, url = "GET", "/announce"
 		}
 		rec := httptest.NewRecorder()
-		handler.ServeHTTP(rec, httptest.NewRequest(method, url, bytes.NewReader(body)))
+		panicked := false
+		func() {
+			// net/http recovers a handler panic and drops the connection: no response
+			defer func() {
+				if recover() != nil {
+					panicked = true
+				}
+			}()
+			handler.ServeHTTP(rec, httptest.NewRequest(method, url, bytes.NewReader(body)))
+		}()
 		o.storeOK, o.storeGot = st.ok, st.got
 		o.resp = nil
-		if rec.Code != 200 {
+		if panicked || rec.Code != 200 {
 			o.respErr = true
 			continue
 		}
